@@ -520,6 +520,7 @@ Definition tr_fuel (c : tr_cfg) (ess : list (tr_entry * tr_sched)) : nat :=
    alone: None = the receiver refuses (or an unmodelled exchange would start) *)
 Definition tr_spec_entry (c : tr_cfg) (dest : path) (e : tr_entry) (st : state) : option (name * state) :=
   let p := tr_payload c e in
+  if te_isdir e && negb (tr_json c) then None else      (* a directory cannot be named in plain mode *)
   match tr_create c dest p [] st with
   | (NErr, _) => None
   | (NOk ln, st1) =>
